@@ -7,6 +7,7 @@
   channel once (one `DespawnTracker`); the poll consumes the entity's whole reactor list, so a despawn reactor fires at
   most once per watched entity.
 -/
+import Cobweb.Proofs.Boot
 import Cobweb.Proofs.Kill
 import Cobweb.Proofs.Watch
 import Cobweb.Proofs.Removed
@@ -104,15 +105,15 @@ theorem poll_in_last (s : St) (t : Nat) : (startTop s t .frameEnd).stack = Frame
 
 /-- **No despawn can be missed.** In every reachable state, an entity with despawn reactors is either alive and carries
     a `DespawnTracker` (its death will be reported), or its death is already on the channel the next poll drains. -/
-theorem despawn_never_missed {p : Prog} {hh : Hist} {s : St} (hr : Reach p hh ({} : St) s) (e : Nat) (hne : s.tblDsp e ≠ []) :
+theorem despawn_never_missed {p : Prog} {hh : Hist} {s : St} {s0 : St} (hI0 : CoreInv s0) (hr : Reach p hh s0 s) (e : Nat) (hne : s.tblDsp e ≠ []) :
     (s.alive e = true ∧ s.dspTracker e = true) ∨ e ∈ s.dspChan :=
-  (watch_reach p hh hr).core.watched e hne
+  ((core_reach_from p hh hI0 hr).watch).core.watched e hne
 
 /-- Once the channel is drained (a poll has run and nothing died since), every remaining despawn reactor watches a live
     entity: every death so far has had its reactions scheduled. -/
-theorem drained_means_all_scheduled {p : Prog} {hh : Hist} {s : St} (hr : Reach p hh ({} : St) s) (hch : s.dspChan = [])
+theorem drained_means_all_scheduled {p : Prog} {hh : Hist} {s : St} {s0 : St} (hI0 : CoreInv s0) (hr : Reach p hh s0 s) (hch : s.dspChan = [])
     (e : Nat) (hne : s.tblDsp e ≠ []) : s.alive e = true := by
-  rcases despawn_never_missed hr e hne with h | h
+  rcases despawn_never_missed hI0 hr e hne with h | h
   · exact h.1
   · rw [hch] at h; cases h
 
@@ -121,9 +122,9 @@ theorem poll_drains (s : St) : (pollDespawns s).1.dspChan = [] := by
   unfold pollDespawns; rw [pollDsp_fold_chan]
 
 /-- **Each death is reported once, and only deaths are reported.** -/
-theorem each_death_once {p : Prog} {hh : Hist} {s : St} (hr : Reach p hh ({} : St) s) :
+theorem each_death_once {p : Prog} {hh : Hist} {s : St} {s0 : St} (hI0 : CoreInv s0) (hr : Reach p hh s0 s) :
     s.dspChan.Nodup ∧ ∀ e ∈ s.dspChan, s.alive e = false :=
-  ⟨(watch_reach p hh hr).core.chanNodup, fun e he => ((watch_reach p hh hr).core.chanGone e he).1⟩
+  ⟨((core_reach_from p hh hI0 hr).watch).core.chanNodup, fun e he => (((core_reach_from p hh hI0 hr).watch).core.chanGone e he).1⟩
 
 /-- With each death on the channel once, one poll queues exactly one reaction per registered handle of each dead entity,
     in channel order. -/
@@ -148,37 +149,37 @@ theorem poll_schedules_each_once (es : List Nat) (hnd : es.Nodup) (acc : St × L
       simp only [List.flatMap_cons]
       rw [this y List.mem_cons_self, ihy (fun x hx => this x (List.mem_cons_of_mem _ hx))]
 
-theorem poll_reactions_exact {p : Prog} {hh : Hist} {s : St} (hr : Reach p hh ({} : St) s) :
+theorem poll_reactions_exact {p : Prog} {hh : Hist} {s : St} {s0 : St} (hI0 : CoreInv s0) (hr : Reach p hh s0 s) :
     (pollDespawns s).2 = s.dspChan.flatMap (fun e => (s.tblDsp e).map (fun h => Cmd.reactDsp e h.sys h)) := by
   unfold pollDespawns
-  rw [poll_schedules_each_once _ (each_death_once hr).1]
+  rw [poll_schedules_each_once _ (each_death_once hI0 hr).1]
   simp
 
 /-- **Every removal reactor has a removal checker**: a component type with a type-wide or an entity-scoped removal reactor
     is tracked, so the poll drains its removal buffer. -/
-theorem removal_reactors_tracked {p : Prog} {hh : Hist} {s : St} (hr : Reach p hh ({} : St) s) (ty : Nat) :
+theorem removal_reactors_tracked {p : Prog} {hh : Hist} {s : St} {s0 : St} (hI0 : CoreInv s0) (hr : Reach p hh s0 s) (ty : Nat) :
     (s.tbl .rem ty ≠ [] → ty ∈ s.tracked) ∧
     (∀ e l h, s.entReactors e = some l → (⟨.rem, ty⟩, h) ∈ l → ty ∈ s.tracked) :=
-  ⟨(watch_reach p hh hr).core.remTracked ty,
-   fun e l h hl hm => (watch_reach p hh hr).core.entRemTracked e l ⟨.rem, ty⟩ h hl hm rfl⟩
+  ⟨((core_reach_from p hh hI0 hr).watch).core.remTracked ty,
+   fun e l h hl hm => ((core_reach_from p hh hI0 hr).watch).core.entRemTracked e l ⟨.rem, ty⟩ h hl hm rfl⟩
 
 /-- **A despawn reaction is always about a dead entity**: the one being read by a running reactor, and every prepared
     one. -/
-theorem despawn_reaction_reads_dead {p : Prog} {hh : Hist} {s : St} (hr : Reach p hh ({} : St) s) :
+theorem despawn_reaction_reads_dead {p : Prog} {hh : Hist} {s : St} {s0 : St} (hI0 : CoreInv s0) (hr : Reach p hh s0 s) :
     (s.trkDsp.reacting = true → s.alive s.trkDsp.curSrc = false) ∧
     (∀ q ∈ s.trkDsp.prepared, s.alive q.2.1 = false) :=
-  ⟨fun h => ((watch_reach p hh hr).core.curGone h).1, fun q hq => ((watch_reach p hh hr).core.prepGone q hq).1⟩
+  ⟨fun h => (((core_reach_from p hh hI0 hr).watch).core.curGone h).1, fun q hq => (((core_reach_from p hh hI0 hr).watch).core.prepGone q hq).1⟩
 
 /-- ... and so is every queued one (in the batch being applied, in a body's pending commands, in the world queue). -/
-theorem queued_despawn_reaction_dead {p : Prog} {hh : Hist} {s : St} (hr : Reach p hh ({} : St) s)
+theorem queued_despawn_reaction_dead {p : Prog} {hh : Hist} {s : St} {s0 : St} (hI0 : CoreInv s0) (hr : Reach p hh s0 s)
     (e sys : Nat) (h : Handle) (cs : List Cmd) (hq : s.wq = .reactDsp e sys h :: cs) : s.alive e = false := by
-  have := (watch_reach p hh hr).wq
+  have := ((core_reach_from p hh hI0 hr).watch).wq
   rw [hq] at this
   exact this.1.1
 
 /-- A tracker only ever sits on a live entity. -/
-theorem tracker_on_live {p : Prog} {hh : Hist} {s : St} (hr : Reach p hh ({} : St) s) (e : Nat) (h : s.dspTracker e = true) :
-    s.alive e = true := (watch_reach p hh hr).core.trkAlive e h
+theorem tracker_on_live {p : Prog} {hh : Hist} {s : St} {s0 : St} (hI0 : CoreInv s0) (hr : Reach p hh s0 s) (e : Nat) (h : s.dspTracker e = true) :
+    s.alive e = true := ((core_reach_from p hh hI0 hr).watch).core.trkAlive e h
 
 /-! ### whole frames: Bevy keeps an unread removal event through one `clear_trackers` and drops it at the second -/
 
@@ -234,16 +235,16 @@ theorem poll_tick_reads (p : Prog) (hh : Hist) {s s' : St} {rest : List Frame} (
   tick_poll p hh ht hst ty
 
 /-- One removal checker per component type, in every reachable state. -/
-theorem one_checker_per_type {p : Prog} {hh : Hist} {s : St} (hr : Reach p hh ({} : St) s) : s.tracked.Nodup :=
-  tracked_nodup_reach hr
+theorem one_checker_per_type {p : Prog} {hh : Hist} {s : St} {s0 : St} (hI0 : CoreInv s0) (hr : Reach p hh s0 s) : s.tracked.Nodup :=
+  (core_reach_from p hh hI0 hr).nodup
 
 /-- **What a poll schedules for removals, in every reachable state**: for every tracked type (in checker order) and every
     buffered removal of it (in the order recorded), one reaction per entity-scoped removal listener of that entity, then
     one per type-wide removal listener — nothing else, nothing twice. -/
-theorem poll_removal_reactions_exact {p : Prog} {hh : Hist} {s : St} (hr : Reach p hh ({} : St) s) :
+theorem poll_removal_reactions_exact {p : Prog} {hh : Hist} {s : St} {s0 : St} (hI0 : CoreInv s0) (hr : Reach p hh s0 s) :
     (pollRemovals s).2 = s.tracked.flatMap (fun ty => (s.removedBuf ty).flatMap (removalCmdsFor s ty)) ∧
     ∀ ty e, C01.targets (removalCmdsFor s ty e) = entListeners s e ⟨.rem, ty⟩ ++ (s.tbl .rem ty).map (·.sys) :=
-  ⟨pollRemovals_cmds s (tracked_nodup_reach hr), fun ty e => removal_listeners s ty e⟩
+  ⟨pollRemovals_cmds s ((core_reach_from p hh hI0 hr).nodup), fun ty e => removal_listeners s ty e⟩
 
 /-- Non-vacuity: one despawn reactor on a spawned entity, the entity is despawned by a plain command in a later operation
     (its death then waits on the channel), the end of the frame polls: the reaction runs once and nothing is left. -/
